@@ -77,3 +77,56 @@ except ImportError:
 R.contract(M_RAW + ":RawArgs.has_token", params={"token": "str"}, returns="bool",
            ensures=["result == (token in self._tokens)"], assumed=True,
            note="proved for ArgvArgs and StringArgs under C08")
+
+# ---------------------------------------------------------------- the help and version listeners
+from . import args_contracts as acx  # noqa: E402  (Args.is_option_set)
+from . import app_contracts as ac  # noqa: E402,F401
+from . import resolver_contracts as rcx  # noqa: E402,F401  (Command.parse)
+
+R.shape("PreResolveEvent", base="Event", _raw_args="ref RawArgs", _application="ref Application",
+        _resolved_command="ref ResolvedCommand?", _propagation_stopped="bool")
+R.shape("Event", _propagation_stopped="bool")
+R.shape("PreHandleEvent", base="Event", _args="ref Args", _io="ref IO", _command="ref Command", _handled="bool",
+        _propagation_stopped="bool")
+R.shape("Command", g_last_parse_lenient="bool?", g_app="ref Application")
+R.uf("app_command", ["ref Application", "str"], "ref Command")
+R.contract("clikit.api.application.application:Application.get_command", params={"name": "str"}, returns="ref Command",
+           ensures=["result is app_command(self, name)"], raises={"Exception": "True"}, assumed=True,
+           note="command lookup of the application (C03)")
+R.contracts[ac.M_CMD + ":Command.parse"].ensures = ["[C09] self.g_last_parse_lenient is lenient or self.g_last_parse_lenient == lenient"]
+R.contracts[ac.M_CMD + ":Command.parse"].modifies = ["self.g_last_parse_lenient"]
+R.contract("clikit.api.command.command:Command.application", params={}, returns="ref Application",
+           ensures=["result is self.g_app"], assumed=True).is_property = True
+R.shape("NameVersion", external=True)
+R.contract("clikit.ui.components.name_version:NameVersion.__init__", params={"config": "ref ApplicationConfig"}, assumed=True)
+R.contract("clikit.ui.components.name_version:NameVersion.render", params={"io": "ref IO", "indentation": "int"},
+           assumed=True, note="prints name and version (content: bounded tier)").defaults = {"indentation": 0}
+
+HELP = "('-h' in event._raw_args._option_tokens or '--help' in event._raw_args._option_tokens)"
+HC = "app_command(event._application, 'help')"
+R.contract(
+    M_DCFG + ":DefaultApplicationConfig.resolve_help_command",
+    params={"event": "ref PreResolveEvent", "event_name": "str", "dispatcher": "none"},
+    ensures=[
+        # the help switch among the option tokens (anywhere before '--') selects the help command, parsed
+        # leniently, and ends the resolution; otherwise the event is left alone
+        "implies(%s, event._propagation_stopped and event._resolved_command is not None and "
+        "event._resolved_command._command is %s and %s.g_last_parse_lenient == True)" % (HELP, HC, HC),
+        "implies(not %s, event._resolved_command is old(event._resolved_command) and "
+        "event._propagation_stopped == old(event._propagation_stopped))" % HELP,
+    ],
+    raises={"Exception": HELP},
+    modifies=["event._resolved_command", "event._propagation_stopped", "ANY.g_last_parse_lenient"],
+)
+VSET = "(base_has_option(event._args._fmt, 'version') and fmt_opt(event._args._fmt, 'version')._long_name in event._args._options)"
+R.contract(
+    M_DCFG + ":DefaultApplicationConfig.print_version",
+    params={"event": "ref PreHandleEvent", "event_name": "str", "dispatcher": "none"},
+    ensures=[
+        # the PARSED version option (so: not a token after '--') marks the event handled: the handler is skipped
+        "implies(%s, event._handled)" % VSET,
+        "implies(not %s, event._handled == old(event._handled))" % VSET,
+    ],
+    modifies=["event._handled"],
+)
+TARGETS += [M_DCFG + ":DefaultApplicationConfig.resolve_help_command", M_DCFG + ":DefaultApplicationConfig.print_version"]
